@@ -395,6 +395,10 @@ def compare_props(R, api, c0, c1, T, kinds, sel_of, exact, ttol=(1e-9, 1e-11), d
             else:
                 a0, a1 = val(v0)[sel], val(v1)[sel]
                 fin = np.isfinite(a0) & np.isfinite(a1)
+                if hasattr(c0, 'semimajor_sigma'):     # isotropic second moments: the orientation is undefined
+                    sa, sb = val(c0.semimajor_sigma)[sel], val(c0.semiminor_sigma)[sel]
+                    with np.errstate(invalid='ignore'):
+                        fin &= ~(np.abs(sa - sb) <= 1e-9 * np.abs(sa))
                 R.ok(api, f'{name} -> 90deg - {name} (mod 180)',
                      bool(np.array_equal(np.isfinite(a0), np.isfinite(a1)))
                      and bool(np.all(ang_diff_deg(a1[fin], 90.0 - a0[fin]) < 1e-6)), det)
@@ -478,6 +482,8 @@ def compare_props(R, api, c0, c1, T, kinds, sel_of, exact, ttol=(1e-9, 1e-11), d
                         continue
                     x0, x1 = float(val(getattr(a, prm))), float(val(getattr(b, prm)))
                     if prm == 'theta' and not shift:
+                        if hasattr(a, 'a') and abs(float(val(a.a)) - float(val(a.b))) <= 1e-9 * float(val(a.a)):
+                            continue      # a circle: theta is meaningless
                         dd = (x1 - (math.pi / 2 - x0)) % math.pi
                         good &= min(dd, math.pi - dd) < 1e-8
                     else:
@@ -618,25 +624,26 @@ def g_find_peaks(sc, T, R, grng):
 
 # ======================================================================================
 # group: DAOStarFinder / IRAFStarFinder / StarFinder (shift).
-#   footprint rule: sources whose integer peak lies further than `margin` = kernel half-size (or the
-#   min_separation radius) + 2 pixels from every edge of the original frame; there the convolved image,
-#   the peak-finding neighbourhood and the measurement cutout see only original pixels.  Both directions:
-#   every such source of the original must be in the canvas table and vice versa.
+#   footprint rule, PER AXIS: a source belongs to the compared zone when its centroid lies at least
+#   m_axis + 1.5 pixels from both edges of that axis of the original frame, where m_axis = the kernel
+#   half-size along the axis (= the peak-finding footprint, the measurement cutout and the border removed
+#   by exclude_border=True), or the min_separation radius if larger.  There the convolved image (zero
+#   padding = mode='constant'), the peak-finding neighbourhood and the cutout see only original pixels,
+#   and the excluded border does not reach.  Relation, both directions: every zone source of one frame must
+#   be reported in the other frame (anywhere) at the shifted position, with all other columns unchanged.
+#   Extra compact stars are injected in the band between the two kernel half-sizes from the edges
+#   (elongated kernels: DAO ratio < 1 at theta 0 / 90, non-square StarFinder kernels).
 # ======================================================================================
-def match_interior(t0, t1, T, ny, nx, margin):
-    def rows(t, dx, dy):
-        if t is None:
-            return {}
-        x, y = val(t['xcentroid']) - dx, val(t['ycentroid']) - dy
-        out = {}
-        for i in range(len(x)):
-            if margin <= x[i] < nx - margin and margin <= y[i] < ny - margin:
-                out[(int(round(x[i])), int(round(y[i])))] = i
-        return out
-    return rows(t0, 0, 0), rows(t1, T.dx, T.dy)
+def zone_rows(t, ddx, ddy, ny, nx, mx, my):
+    if t is None:
+        return {}
+    x, y = val(t['xcentroid']) - ddx, val(t['ycentroid']) - ddy
+    return {i: (x[i], y[i]) for i in range(len(x))
+            if mx + 1.5 <= x[i] <= nx - 1 - mx - 1.5 and my + 1.5 <= y[i] <= ny - 1 - my - 1.5}
 
 
-def compare_finder(R, api, t0, t1, T, ny, nx, margin, detail, srcs=()):
+def compare_finder(R, api, t0, t1, T, ny, nx, margins, detail, srcs=()):
+    mx, my = margins
     # sanity (keeps the relation from being vacuous when the reported positions are nonsense, e.g. cutout-relative):
     # at least one of the bright blobs of the scene is reported within 2.5 pixels, in both frames
     for t, ddx, ddy, which in ((t0, 0, 0, 'original'), (t1, T.dx, T.dy, 'canvas')):
@@ -646,69 +653,120 @@ def compare_finder(R, api, t0, t1, T, ny, nx, margin, detail, srcs=()):
             R.ok(api, 'reported positions lie on the scene sources (sanity)', near <= 2.5,
                  lambda: dict(detail, frame=which, xcentroid=js(x), ycentroid=js(y),
                               scene_sources=[(s['x0'], s['y0']) for s in srcs]))
-    r0, r1 = match_interior(t0, t1, T, ny, nx, margin)
-    n_all = (0 if t0 is None else len(t0))
-    R.skip(api, 'source-within-margin-of-frame-edge', n_all - len(r0))
-    det = lambda: dict(detail, margin=margin, interior_sources=sorted(r0), interior_sources_canvas=sorted(r1))
-    if not R.ok(api, 'same interior sources (positions rounded to the pixel)', sorted(r0) == sorted(r1), det):
+    z0 = zone_rows(t0, 0, 0, ny, nx, mx, my)
+    z1 = zone_rows(t1, T.dx, T.dy, ny, nx, mx, my)
+    R.skip(api, 'source-outside-the-per-axis-zone', (0 if t0 is None else len(t0)) - len(z0))
+    all0 = {} if t0 is None else {i: (val(t0['xcentroid'])[i], val(t0['ycentroid'])[i]) for i in range(len(t0))}
+    all1 = {} if t1 is None else {i: (val(t1['xcentroid'])[i] - T.dx, val(t1['ycentroid'])[i] - T.dy)
+                                  for i in range(len(t1))}
+
+    def find(p, table):
+        for k, q in table.items():
+            if abs(p[0] - q[0]) <= 1e-6 and abs(p[1] - q[1]) <= 1e-6:
+                return k
+        return None
+    det = lambda: dict(detail, margins_xy=(mx, my), frame=(ny, nx),
+                       original=sorted((round(float(a), 3), round(float(b), 3)) for a, b in all0.values()),
+                       canvas_minus_offset=sorted((round(float(a), 3), round(float(b), 3)) for a, b in all1.values()))
+    pairs = []
+    miss0 = [p for i, p in z0.items() if find(p, all1) is None]
+    miss1 = [p for i, p in z1.items() if find(p, all0) is None]
+    R.ok(api, 'every source of the original frame inside the zone is reported in the canvas', not miss0,
+         lambda: dict(det(), missing_in_canvas=[(float(a), float(b)) for a, b in miss0]))
+    R.ok(api, 'every canvas source inside the zone of the original frame is reported in the original frame', not miss1,
+         lambda: dict(det(), missing_in_original=[(float(a), float(b)) for a, b in miss1]))
+    for i, p in z0.items():
+        k = find(p, all1)
+        if k is not None:
+            pairs.append((i, k))
+    if not pairs:
         return
-    if not r0:
-        return
-    i0 = [r0[k] for k in sorted(r0)]
-    i1 = [r1[k] for k in sorted(r0)]
+    i0, i1 = [a for a, _ in pairs], [b for _, b in pairs]
     for col in t0.colnames:
-        a0, a1 = val(t0[col])[i0], val(t1[col])[i1]
-        dd = lambda col=col, a0=a0, a1=a1: dict(det(), column=col, original=js(a0), canvas=js(a1))
         if col == 'id':
             continue
+        a0, a1 = val(t0[col])[i0], val(t1[col])[i1]
+        dd = lambda col=col, a0=a0, a1=a1: dict(det(), column=col, original_values=js(a0), canvas_values=js(a1))
         if col == 'xcentroid':
             R.ok(api, 'xcentroid moves by dx', moved(a1, a0, T.dx), dd)
         elif col == 'ycentroid':
             R.ok(api, 'ycentroid moves by dy', moved(a1, a0, T.dy), dd)
         else:
             R.ok(api, f'{col} unchanged', same(a1, a0, False, rtol=RTOL, atol=1e-13), dd)
-    # relative order of the interior sources is preserved
-    R.ok(api, 'order of interior sources preserved', i1 == sorted(i1) if i0 == sorted(i0) else True, det)
+    R.ok(api, 'order of the zone sources preserved', i1 == sorted(i1) if i0 == sorted(i0) else True, det)
+
+
+def inject_band_stars(d, srcs, grng, xr, yr, sx, sy, theta):
+    """compact stars shaped like the kernel, with their peak pixel in the band between the two kernel
+    half-sizes (+2) from an edge: inside the zone of the short axis, nearer than the long half-size"""
+    ny, nx = d.shape
+    d = d.copy()
+    yy, xx = np.mgrid[0:ny, 0:nx]
+    placed = [(s['x0'], s['y0']) for s in srcs]
+    lo, hi = min(xr, yr) + 2, max(xr, yr) + 1
+    for _ in range(4):
+        dist = grng.randint(lo, max(lo, hi))
+        if yr <= xr:       # short axis = y: top / bottom bands
+            y0 = grng.choice([dist, ny - 1 - dist]) + grng.uniform(-0.2, 0.2)
+            x0 = grng.uniform(xr + 4, nx - 1 - xr - 4)
+        else:
+            x0 = grng.choice([dist, nx - 1 - dist]) + grng.uniform(-0.2, 0.2)
+            y0 = grng.uniform(yr + 4, ny - 1 - yr - 4)
+        if any(math.hypot(x0 - a, y0 - b) < 12 for a, b in placed):
+            continue
+        placed.append((x0, y0))
+        c, s_ = math.cos(theta), math.sin(theta)
+        u = (xx - x0) * c + (yy - y0) * s_
+        v = -(xx - x0) * s_ + (yy - y0) * c
+        d += grng.uniform(60, 150) * np.exp(-0.5 * ((u / sx) ** 2 + (v / sy) ** 2))
+    return d, [{'x0': a, 'y0': b} for a, b in placed]
 
 
 def g_starfinders(sc, T, R, grng):
     from photutils.detection import DAOStarFinder, IRAFStarFinder, StarFinder
     ny, nx = sc['ny'], sc['nx']
-    d, m = sc['data'], sc['mask']
-    D, _, M = scene_images(sc, T)
-    use_mask = grng.random() < 0.5
+    m = sc['mask']
+    M = T.img(m, False)
+    use_mask = grng.random() < 0.4
     mk = dict(mask=m if use_mask else None)
     mkT = dict(mask=M if use_mask else None)
-    # DAOStarFinder
-    kw = dict(threshold=grng.uniform(3.0, 8.0), fwhm=grng.uniform(2.5, 4.5), ratio=grng.choice([1.0, grng.uniform(0.5, 0.9)]),
-              theta=grng.uniform(0, 180), sigma_radius=grng.choice([1.5, 2.0]), exclude_border=grng.random() < 0.5,
-              sharplo=0.0, sharphi=2.0, roundlo=-2.0, roundhi=2.0)
+    # DAOStarFinder: round and elongated kernels (theta 0 / 90 / random), exclude_border on and off
+    kw = dict(threshold=grng.uniform(3.0, 8.0), fwhm=grng.uniform(3.0, 8.0),
+              ratio=grng.choice([1.0, grng.uniform(0.4, 0.8), grng.uniform(0.4, 0.6)]),
+              theta=grng.choice([0.0, 90.0, 0.0, 90.0, grng.uniform(0, 180)]), sigma_radius=grng.choice([1.5, 2.0]),
+              exclude_border=grng.random() < 0.6, sharplo=-5.0, sharphi=5.0, roundlo=-5.0, roundhi=5.0)
     f = DAOStarFinder(**kw)
-    margin = max(f.kernel.xradius, f.kernel.yradius) + 2
-    compare_finder(R, 'DAOStarFinder', f(d, **mk), DAOStarFinder(**kw)(D, **mkT), T, ny, nx, margin,
-                   {'params': kw, 'mask': use_mask}, sc['srcs'])
-    # IRAFStarFinder
+    k = f.kernel
+    d, srcs = inject_band_stars(sc['data'], sc['srcs'], grng, k.xradius, k.yradius, k.xsigma, k.ysigma, math.radians(kw['theta']))
+    D = T.img(d, 0.0)
+    compare_finder(R, 'DAOStarFinder', f(d, **mk), DAOStarFinder(**kw)(D, **mkT), T, ny, nx, (k.xradius, k.yradius),
+                   {'params': kw, 'kernel_radii_xy': (k.xradius, k.yradius), 'mask': use_mask}, srcs)
+    # IRAFStarFinder (circular kernel; min_separation footprint)
     kw = dict(threshold=grng.uniform(3.0, 8.0), fwhm=grng.uniform(2.5, 4.0), sigma_radius=grng.choice([1.5, 2.0]),
-              minsep_fwhm=grng.choice([1.5, 2.5]), exclude_border=grng.random() < 0.5,
+              minsep_fwhm=grng.choice([1.5, 2.5]), exclude_border=grng.random() < 0.6,
               sharplo=0.0, sharphi=5.0, roundlo=0.0, roundhi=5.0)
     f = IRAFStarFinder(**kw)
-    margin = max(f.kernel.xradius, f.kernel.yradius, int(f.min_separation) + 1) + 2
-    compare_finder(R, 'IRAFStarFinder', f(d, **mk), IRAFStarFinder(**kw)(D, **mkT), T, ny, nx, margin,
-                   {'params': kw, 'mask': use_mask}, sc['srcs'])
-    # StarFinder with an asymmetric (rotated elliptical Gaussian) kernel of odd, unequal shape
-    ky, kx = grng.choice([(7, 9), (9, 7), (7, 7), (9, 11)])
+    k = f.kernel
+    ms = int(math.ceil(f.min_separation))
+    d, srcs = inject_band_stars(sc['data'], sc['srcs'], grng, max(k.xradius, ms), max(k.yradius, ms), k.xsigma, k.ysigma, 0.0)
+    D = T.img(d, 0.0)
+    compare_finder(R, 'IRAFStarFinder', f(d, **mk), IRAFStarFinder(**kw)(D, **mkT), T, ny, nx,
+                   (max(k.xradius, ms), max(k.yradius, ms)), {'params': kw, 'mask': use_mask}, srcs)
+    # StarFinder with a non-square, elongated Gaussian kernel
+    ky, kx = grng.choice([(5, 13), (13, 5), (7, 11), (11, 7), (7, 7)])
     yy, xx = np.mgrid[0:ky, 0:kx]
-    th = grng.uniform(0, math.pi)
-    u = (xx - kx // 2) * math.cos(th) + (yy - ky // 2) * math.sin(th)
-    v = -(xx - kx // 2) * math.sin(th) + (yy - ky // 2) * math.cos(th)
-    kern = np.exp(-0.5 * ((u / 1.8) ** 2 + (v / 1.2) ** 2))
-    kw = dict(threshold=grng.uniform(3.0, 10.0), min_separation=grng.choice([3, 5, 6.5]),
-              exclude_border=grng.random() < 0.5)
-    margin = max(ky // 2, kx // 2, int(kw['min_separation']) + 1) + 2
+    sgx, sgy = kx / 5.0, ky / 5.0
+    kern = np.exp(-0.5 * (((xx - kx // 2) / sgx) ** 2 + ((yy - ky // 2) / sgy) ** 2))
+    kw = dict(threshold=grng.uniform(3.0, 10.0), min_separation=grng.choice([0, 1.5, 2, 5]),
+              exclude_border=grng.random() < 0.6)
+    ms = int(math.ceil(kw['min_separation']))
+    mx, my = max(kx // 2, ms), max(ky // 2, ms)
+    d, srcs = inject_band_stars(sc['data'], sc['srcs'], grng, mx, my, sgx, sgy, 0.0)
+    D = T.img(d, 0.0)
     t0 = StarFinder(kernel=kern.copy(), **kw)(d.copy(), **mk)
     t1 = StarFinder(kernel=kern.copy(), **kw)(D.copy(), **mkT)
-    compare_finder(R, 'StarFinder', t0, t1, T, ny, nx, margin,
-                   {'params': kw, 'kernel_shape': (ky, kx), 'kernel_theta': th, 'mask': use_mask}, sc['srcs'])
+    compare_finder(R, 'StarFinder', t0, t1, T, ny, nx, (mx, my),
+                   {'params': kw, 'kernel_shape': (ky, kx), 'mask': use_mask}, srcs)
 
 
 # ======================================================================================
@@ -811,6 +869,34 @@ CAT_BEYOND = {
 }
 
 
+TINY_SHAPES = {
+    'dot': [(0, 0)], 'pair_h': [(0, 0), (0, 1)], 'pair_v': [(0, 0), (1, 0)],
+    'line_h': [(0, 0), (0, 1), (0, 2), (0, 3), (0, 4)], 'line_v': [(0, 0), (1, 0), (2, 0), (3, 0)],
+    'diag': [(0, 0), (1, 1), (2, 2), (3, 3)], 'L4': [(0, 0), (1, 0), (2, 0), (2, 1)],
+    'L5': [(0, 0), (1, 0), (2, 0), (2, 1), (2, 2)], 'T5': [(0, 0), (0, 1), (0, 2), (1, 1), (2, 1)],
+}
+
+
+def add_tiny_segments(seg, grng, n=5):
+    seg = np.array(seg)
+    ny, nx = seg.shape
+    lab = int(seg.max())
+    names = list(TINY_SHAPES)
+    grng.shuffle(names)
+    for name in names[:n]:
+        pts = TINY_SHAPES[name]
+        h = max(p[0] for p in pts) + 1
+        w = max(p[1] for p in pts) + 1
+        for _ in range(40):
+            y0, x0 = grng.randint(3, ny - h - 4), grng.randint(3, nx - w - 4)
+            if not seg[y0 - 1:y0 + h + 1, x0 - 1:x0 + w + 1].any():
+                lab += 1
+                for (j, i) in pts:
+                    seg[y0 + j, x0 + i] = lab
+                break
+    return seg
+
+
 def g_source_catalog(sc, T, R, grng):
     from astropy.convolution import Gaussian2DKernel, convolve
     from photutils.segmentation import SegmentationImage, SourceCatalog
@@ -822,6 +908,9 @@ def g_source_catalog(sc, T, R, grng):
     if s0 is None:
         R.skip('SourceCatalog', 'no-segments')
         return
+    # tiny / thin segments (1 pixel, 2 pixels, 1xN and Nx1 lines, diagonal chain, L of 4-5 pixels) stamped on
+    # free background away from the array corner: their quadratic-fit / shape fall-back paths are exercised
+    s0 = SegmentationImage(add_tiny_segments(s0.data, grng))
     s1 = SegmentationImage(T.img(s0.data, 0))
     bkgmap = 0.5 + 0.01 * np.add.outer(np.arange(ny), 2.0 * np.arange(nx))
     conv = convolve(d, Gaussian2DKernel(1.2, x_size=5, y_size=5), boundary='fill', fill_value=0.0)
@@ -831,10 +920,20 @@ def g_source_catalog(sc, T, R, grng):
                 kron_params=grng.choice([(2.5, 1.4, 0.0), (2.0, 1.0, 0.0), (2.5, 1.4, 3.0)]))
     kw = dict(localbkg_width=opts['localbkg_width'], apermask_method=opts['apermask_method'],
               kron_params=opts['kron_params'], progress_bar=False)
-    c0 = SourceCatalog(d, s0, error=e if opts['use_error'] else None, mask=m if opts['use_mask'] else None,
+    use_wcs = T.kind == 'shift' and grng.random() < 0.5
+    w0 = w1 = None
+    if use_wcs:       # a linear WCS; the canvas WCS has its reference pixel moved by the offset
+        from astropy.wcs import WCS
+        w0, w1 = WCS(naxis=2), WCS(naxis=2)
+        for w, ox, oy in ((w0, 0, 0), (w1, T.dx, T.dy)):
+            w.wcs.ctype = ['RA---TAN', 'DEC--TAN']
+            w.wcs.crval = [150.1, 2.2]
+            w.wcs.crpix = [20.5 + ox, 17.25 + oy]
+            w.wcs.cdelt = [-2.0e-4, 2.0e-4]
+    c0 = SourceCatalog(d, s0, error=e if opts['use_error'] else None, mask=m if opts['use_mask'] else None, wcs=w0,
                        background=bkgmap if opts['use_bkg'] else None, convolved_data=conv if opts['use_conv'] else None, **kw)
     c1 = SourceCatalog(D, s1, error=E if opts['use_error'] else None, mask=M if opts['use_mask'] else None,
-                       background=T.img(bkgmap, 0.0) if opts['use_bkg'] else None,
+                       background=T.img(bkgmap, 0.0) if opts['use_bkg'] else None, wcs=w1,
                        convolved_data=T.img(conv, 0.0) if opts['use_conv'] else None, **kw)
     n = c0.nlabels
     allsel = np.ones(n, bool)
@@ -904,6 +1003,19 @@ def g_source_catalog(sc, T, R, grng):
              same(np.atleast_1d(val(p1[0]))[interior], np.atleast_1d(val(p0[0]))[interior], False, rtol=1e-8, atol=1e-9)
              and same(np.atleast_1d(val(p1[1]))[interior], np.atleast_1d(val(p0[1]))[interior], False, rtol=1e-8, atol=1e-9),
              lambda: dict(det(), radius=rr, original=js(p0[0]), transformed=js(p1[0])))
+    if use_wcs:
+        for nm, sel in (('sky_centroid', allsel), ('sky_centroid_icrs', allsel), ('sky_centroid_quad', allsel),
+                        ('sky_centroid_win', interior), ('sky_bbox_ll', allsel), ('sky_bbox_ul', allsel),
+                        ('sky_bbox_lr', allsel), ('sky_bbox_ur', allsel)):
+            if not sel.any():
+                continue
+            a, b = getattr(c0, nm), getattr(c1, nm)
+            ra0, de0 = np.atleast_1d(a.spherical.lon.deg), np.atleast_1d(a.spherical.lat.deg)
+            ra1, de1 = np.atleast_1d(b.spherical.lon.deg), np.atleast_1d(b.spherical.lat.deg)
+            R.ok('SourceCatalog', f'{nm} unchanged (WCS reference pixel moved with the frame)',
+                 bool(np.allclose(ra1[sel], ra0[sel], rtol=0, atol=1e-11, equal_nan=True))
+                 and bool(np.allclose(de1[sel], de0[sel], rtol=0, atol=1e-11, equal_nan=True)),
+                 lambda: dict(det(), property=nm, original=[js(ra0), js(de0)], transformed=[js(ra1), js(de1)]))
     # the table and a sliced catalog
     t0, t1 = c0.to_table(), c1.to_table()
     R.ok('SourceCatalog', 'to_table: same columns and labels', t0.colnames == t1.colnames and same(t1['label'], t0['label']), det)
